@@ -42,6 +42,14 @@ if %(ipython_running)r:
 for m in %(blocked)r:
     sys.modules[m] = None
 report = dict(preimport_errors=[])
+if %(env_in_script)r is not None:
+    # the script chooses the backend itself, after the package (or one of its helper modules) has been imported already
+    how, name = %(env_in_script)r
+    if how == "after_package":
+        import pysnark
+    elif how == "after_helper":
+        import pysnark.gmpy
+    os.environ["PYSNARK_BACKEND"] = name
 for m in %(pre)r:
     try:
         __import__(m)
@@ -203,19 +211,27 @@ def main():
     return R.finish(require_counters=("stage1_judged", "stage2_judged", "stage3_judged", "loud_failures_judged", "unknown_name_diagnosed", "smoke_ok"))
 
 
-def run_probe(pre, env, ld, wd, autoprove_off=False):
+def run_probe(pre, env, ld, wd, autoprove_off=False, qap_on_path=False, env_how=None):
     shims = [s for s in ("flatbuffers", "libsnark") if ld[s] is True]
     if ld.get("libsnark") in ("broken", "oserror", "bare"):
         shims.append("libsnark_" + ld["libsnark"])   # installed but unusable: its import raises AttributeError / OSError(errno, text) / a bare ImportError
     if ld.get("ipython"):
         shims.append("ipython")        # IPython importable, but the script is a plain script (no get_ipython in builtins)
     extra = {}
-    if env is not None:
+    env_in_script = None
+    if env is not None and env_how:
+        env_in_script = (env_how, env)
+    elif env is not None:
         extra["PYSNARK_BACKEND"] = env
-    extra["QAPTOOLS_BIN"] = os.path.join(boot.SHIMS, "qaptools_bin") if ld["qaptools"] else os.path.join(wd, "no-such-dir")
+    if qap_on_path:
+        # the documented alternative set-up: QAPTOOLS_BIN unset, the executables (if installed at all) found through PATH
+        if ld["qaptools"]:
+            extra["PATH"] = os.path.join(boot.SHIMS, "qaptools_bin") + os.pathsep + os.environ.get("PATH", "")
+    else:
+        extra["QAPTOOLS_BIN"] = os.path.join(boot.SHIMS, "qaptools_bin") if ld["qaptools"] else os.path.join(wd, "no-such-dir")
     extra["PYSNARK_KEYDIR"] = "keys"
     os.makedirs(os.path.join(wd, "keys"), exist_ok=True)
-    open(os.path.join(wd, "probe.py"), "w").write(PROBE % dict(pre=list(pre), iface=INTERFACE, autoprove_off=autoprove_off, blocked=list(ld.get("blocked") or []), ipython_running=bool(ld.get("ipython_running")), falsy_backend=bool(ld.get("falsy_backend"))))
+    open(os.path.join(wd, "probe.py"), "w").write(PROBE % dict(env_in_script=env_in_script, pre=list(pre), iface=INTERFACE, autoprove_off=autoprove_off, blocked=list(ld.get("blocked") or []), ipython_running=bool(ld.get("ipython_running")), falsy_backend=bool(ld.get("falsy_backend"))))
     pr = subprocess.run([boot.PY, "probe.py"], cwd=wd, env=boot.child_env(extra, shims=shims), stdout=subprocess.PIPE, stderr=subprocess.PIPE, timeout=120)
     rep = None
     if os.path.exists(os.path.join(wd, "report.json")):
@@ -230,7 +246,12 @@ def worker(job):
         wd = tempfile.mkdtemp(prefix="c19-", dir=home)
         try:
             off = n % 3 == 0
-            rc, out, err, rep = run_probe(pre, env, ld, wd, autoprove_off=off)
+            env_how = [None, None, "first", "after_package", "after_helper"][n % 5] if env is not None else None
+            if env_how:
+                R.count("backend_named_by_the_script_itself:" + env_how)
+            rc, out, err, rep = run_probe(pre, env, ld, wd, autoprove_off=off, qap_on_path=(n % 4 == 1), env_how=env_how)
+            if n % 4 == 1:
+                R.count("qaptools_located_through_PATH")
         finally:
             shutil.rmtree(wd, ignore_errors=True)
         exp = expected(pre, env, ld)
@@ -247,7 +268,7 @@ def worker(job):
         if ld.get("blocked"):
             ldcls += "+blocked:" + ",".join(m.split(".")[-2 if m.endswith(".backend") else -1] for m in ld["blocked"])
         cell = "stage%d|env-%s|load-%s|pre%d" % (exp["stage"], envcls, ldcls, len(pre))
-        det = dict(preimport=pre, env=env, loadable=ld, exit_status=rc, report=rep, stdout_tail=out[-300:], stderr_tail=err[-400:], expected=dict(exp, names=sorted(exp.get("names", []))))
+        det = dict(preimport=pre, env=env, env_how=env_how, loadable=ld, qap_on_path=(n % 4 == 1), exit_status=rc, report=rep, stdout_tail=out[-300:], stderr_tail=err[-400:], expected=dict(exp, names=sorted(exp.get("names", []))))
         R.case(cell=cell, key=(tuple(pre), env, ldcls))
         R.sample(dict(preimport=pre, env=env, loadable=ld, selected=rep and rep.get("name"), module=rep and rep.get("module"), exit_status=rc), cap=6)
         if exp["kind"] == "fail":
@@ -307,7 +328,7 @@ def replay(path):
     det = d["detail"]
     wd = tempfile.mkdtemp(prefix="c19replay-")
     try:
-        print(run_probe(det["preimport"], det["env"], det["loadable"], wd))
+        print(run_probe(det["preimport"], det["env"], det["loadable"], wd, qap_on_path=bool(det.get("qap_on_path")), env_how=det.get("env_how")))
     finally:
         shutil.rmtree(wd, ignore_errors=True)
     return 0
